@@ -16,4 +16,7 @@ CASES = [
     {"id": "bosonic-state-sorted-selection", "expect": "fire", "key": "C16.labels",
      "edits": [("backends/bosonicbackend/backend.py", "        mode_ind = np.array([[2 * m, 2 * m + 1] for m in modes]).flatten()\n",
                 "        mode_ind = np.sort(np.append(2 * np.array(modes), 2 * np.array(modes) + 1))\n")]},
+    {"id": "bosonic-displacement-sorted", "expect": "fire", "key": "C16.labels",
+     "edits": [("backends/states.py", "        ind = np.array([[2 * m, 2 * m + 1] for m in modes], dtype=int).flatten()\n",
+                "        ind = np.sort(np.concatenate([2 * np.array(modes), 2 * np.array(modes) + 1]))\n")]},
 ]
